@@ -69,6 +69,8 @@ type Script struct {
 	// the output is the Datadog client and the upstream an HTTP intake; Gen.Upstream is then the outcome per request:
 	// healthy (200) | lateAck (200 after 120 ms) | noAck (never answers) | closeNow (connection reset) | resetAfter1 (500) | resetAfter2 (300)
 	Datadog bool `json:"datadog"`
+	// the Fluentd output logs in with a shared key; the upstream behaviour "badKey" is a server holding another key
+	Secret bool `json:"secret"`
 	// the singleton orchestrator (one pipeline, fixed tag dev.app1) instead of byKeySet: records of several apps share the
 	// pipeline and the observer sees one stream per connection (key 1 for every record)
 	Singleton bool `json:"singleton"`
@@ -128,6 +130,7 @@ outputBufferPairs:
 var ddHTTPTimeout = "400ms"
 var ffMaxDuration = "300ms"
 var singleton = false
+var sharedKey = ""
 
 func confText(kind, queueRoot, upAddr string, twoKeys bool) string {
 	keys, extra := "app", ""
@@ -146,6 +149,7 @@ func confText(kind, queueRoot, upAddr string, twoKeys bool) string {
 	}
 	text := fmt.Sprintf(confTemplate, keys, extra, queueRoot, upAddr)
 	text = strings.Replace(text, "maxDuration: 300ms", "maxDuration: "+ffMaxDuration, 1)
+	text = strings.Replace(text, `secret: ""`, `secret: "`+sharedKey+`"`, 1)
 	if singleton {
 		text = strings.Replace(text, "  type: byKeySet\n  keys: ["+keys+"]\n  tag: dev.$app\n", "  type: singleton\n  tag: dev.app1\n", 1)
 	}
@@ -238,6 +242,18 @@ func (u *upstream) serve(c net.Conn, k int, beh string) {
 	defer c.Close()
 	if beh == "closeNow" || beh == "refuse" {
 		_ = c.(*net.TCPConn).SetLinger(0)
+		return
+	}
+	if sharedKey != "" {
+		key := sharedKey
+		if beh == "badKey" {
+			key = "another-key"
+		}
+		if ok, err := forwardprotocol.DoServerHandshake(c, key, time.Second, func(_, _, _ string) (bool, string) { return true, "" }); err != nil || !ok {
+			return
+		}
+		_ = c.SetDeadline(time.Time{})
+	} else if beh == "badKey" {
 		return
 	}
 	dec := msgpack.NewDecoder(c)
@@ -441,6 +457,10 @@ func RunScript(sc Script, work string) *vtrace.Tracer {
 	}
 	up := &upstream{pre: "Up", tr: tr, addr: "127.0.0.1:0", ackedStamps: map[stamp]bool{}}
 	singleton = sc.Singleton
+	sharedKey = ""
+	if sc.Secret {
+		sharedKey = "verif-shared-key"
+	}
 	ffMaxDuration = "300ms"
 	if sc.MaxDurationMs > 0 {
 		ffMaxDuration = fmt.Sprintf("%dms", sc.MaxDurationMs)
